@@ -208,6 +208,9 @@ func (g *generatorContext) parseTerm(slexer *structLexer, allowUnknown bool) (no
 
 // Parse modifiers: ?, *, + and/or !
 func (g *generatorContext) parseModifier(slexer *structLexer, expr node) (node, error) {
+	if expr == nil { // Nothing to modify; the caller reports the stray token.
+		return nil, nil
+	}
 	out := &group{expr: expr}
 	t, err := slexer.Peek()
 	if err != nil {
@@ -252,6 +255,9 @@ func (g *generatorContext) parseCapture(slexer *structLexer) (node, error) {
 	n, err := g.parseTermNoModifiers(slexer, false)
 	if err != nil {
 		return nil, err
+	}
+	if n == nil {
+		return nil, fmt.Errorf("capture (@) must be followed by an expression")
 	}
 	return &capture{field, n}, nil
 }
@@ -372,6 +378,9 @@ func (g *generatorContext) parseNegation(slexer *structLexer) (node, error) {
 	next, err := g.parseTermNoModifiers(slexer, false)
 	if err != nil {
 		return nil, err
+	}
+	if next == nil {
+		return nil, fmt.Errorf("negation must be followed by an expression")
 	}
 	return &negation{next}, nil
 }
